@@ -8,6 +8,8 @@ module N :
 
   val double : coq_N -> coq_N
 
+  val pred : coq_N -> coq_N
+
   val add : coq_N -> coq_N -> coq_N
 
   val sub : coq_N -> coq_N -> coq_N
@@ -36,7 +38,13 @@ module N :
 
   val coq_land : coq_N -> coq_N -> coq_N
 
+  val shiftl : coq_N -> coq_N -> coq_N
+
   val to_nat : coq_N -> nat
 
+  val of_nat : nat -> coq_N
+
   val eq_dec : coq_N -> coq_N -> bool
+
+  val ones : coq_N -> coq_N
  end
